@@ -92,7 +92,7 @@ theorem decSized_map {α β : Type} (f : α → β) (sz : SizeC) (rd : Bits → 
 
 mutual
 def ucanonP : PTy → Val → Bool
-  | .seq root rattrs _ adds, .seq vs => ucanonRootP root rattrs vs && ucanonAddsP adds (vs.drop root.length)
+  | .seq root rattrs _ adds _, .seq vs => ucanonRootP root rattrs vs && ucanonAddsP adds (vs.drop root.length)
   | .choice root _ _ adds, .choice i v =>
     if i < root.length then ucanonAltP root i v else ucanonAltP adds (i - root.length) v
   | .seqOf _ e, .list vs => vs.all (ucanonP e)
@@ -479,9 +479,9 @@ theorem encAddsU_length (adds : List PTy) :
 
 /-! ### acceptance, kind by kind -/
 
-theorem rtu_seq (root : List PTy) (rattrs : List Attr) (ext : Bool) (adds : List PTy)
+theorem rtu_seq (root : List PTy) (rattrs : List Attr) (ext : Bool) (adds : List PTy) (aattrs : List Attr)
     (ihr : ∀ m ∈ root, RTU m) (iha : ∀ m ∈ adds, RTU m)
-    (hl : rattrs.length = root.length) (hn : adds.length < 16384) : RTU (.seq root rattrs ext adds) := by
+    (hl : rattrs.length = root.length) (hn : adds.length < 16384) : RTU (.seq root rattrs ext adds aattrs) := by
   intro v s s' bits rest hc he
   cases v with
   | seq vs =>
@@ -685,10 +685,10 @@ theorem rtu_all : ∀ t, wfP t = true → RTU t := by
   · intro sz _; exact rtu_prim _ (rt_octstr sz) (fun v => by simp [ucanonP]) (fun v s => by cases v <;> simp [encUV, encUPER])
   · intro cw a b sz _; exact rtu_prim _ (rt_kmstr cw a b sz) (fun v => by simp [ucanonP]) (fun v s => by cases v <;> simp [encUV, encUPER])
   · intro _; exact rtu_prim _ rt_unkstr (fun v => by simp [ucanonP]) (fun v s => by cases v <;> simp [encUV, encUPER])
-  · intro root rattrs ext adds ihr iha hw
+  · intro root rattrs ext adds aattrs ihr iha hw
     simp only [wfP, Bool.and_eq_true, beq_iff_eq, decide_eq_true_eq] at hw
     obtain ⟨⟨⟨hwr, hwa⟩, hl⟩, hn⟩ := hw
-    exact rtu_seq root rattrs ext adds (fun m hm => ihr m hm ((wfPs_iff root).mp hwr m hm))
+    exact rtu_seq root rattrs ext adds aattrs (fun m hm => ihr m hm ((wfPs_iff root).mp hwr m hm))
       (fun m hm => iha m hm ((wfPs_iff adds).mp hwa m hm)) hl hn
   · intro root order ext adds ihr iha hw
     simp only [wfP, Bool.and_eq_true, decide_eq_true_eq] at hw
